@@ -18,6 +18,10 @@ CHECKS = {
   text="Solver-decided, bounded: from an arbitrary invariant-satisfying machine (all 12 phases x staging/current shapes, symbolic state leaves) each of the 17 operations returns nil exactly when the reference automaton written from the method documentation enables it, then reaches the documented phase with the documented effect, and otherwise leaves phase, staging and current transaction (identity, slots and contents) unchanged; never panics for indices below N.",
   note="Trusted: go/ssa lowering, interpreter (translator-validated), z3; reference automaton of DESIGN.md Appendix A.2; ideal signatures.",
   ref="DESIGN.md §3 C09, Appendix A.2"),
+ "C14": dict(
+  text="Solver-decided, bounded: for every value type and all 17 message types within the shape bounds (all leaves symbolic) the real Encode followed by the real Decode succeeds, yields a value equal under an independent field-by-field comparator (and under the repository's Equal), consumes exactly its bytes (3 arbitrary trailing bytes stay), and re-encodes to the same bytes; two envelopes back to back decode in order; the protobuf serializer (From*/To*, framing) returns an equal message that re-encodes natively to the same bytes; the BigInt codec is covered for every length 0..129.",
+  note="Trusted: go/ssa lowering, interpreter (translator-validated natively incl. the real protobuf library), z3; proto.Marshal/Unmarshal modelled by contract.",
+  ref="DESIGN.md §3 C14"),
  "C15": dict(
   text="Solver-decided, bounded: for all pairs of values within the shape bounds (independent shapes and all single-field variants, every leaf symbolic) the real Equal/AssertEqual functions agree with byte equality of the real encodings, and the real sim backend's Sign/Verify (over an ideal hash and signature scheme) accept exactly (same signer, equal state). Not a proof: larger dimensions and longer amounts are outside.",
   note="Trusted: go/ssa lowering, the interpreter (validated per run against native execution on random vectors), z3; idealised SHA-256/ECDSA; representation assumptions listed in the evidence.",
